@@ -49,6 +49,7 @@ def main():
         from crosshair.core_and_libs import analyze_function, run_checkables
         from crosshair.options import AnalysisOptionSet
         import vt.rec as REC
+        REC.install_faithful_lru()
 
         native = None
         if job['kind'] == 'fidelity':
